@@ -84,6 +84,7 @@ def generate(R, tier):
         return {"cls": "SCALED", "raw": raw, "styles": styles, "taxa": False, "taxa_grp": False, "trait": False, "steps": sst,
                 "prescaled": (None if R.random() < 0.5 else {"loc": [R.choice([0.0, 1.5, -20.0, 1e6]) for _ in range(ntr)], "scl": [R.choice([1.0, 2.0, 0.25, 1e3]) for _ in range(ntr)]})}
     return {"cls": R.choice(sorted(CLS)), "raw": raw, "styles": styles, "taxa": R.random() < 0.8, "taxa_grp": R.random() < 0.7, "trait": R.random() < 0.8,
+            "via_pandas": ({"seed": R.randrange(1 << 30), "positions": R.random() < 0.4, "extra": R.random() < 0.3} if R.random() < 0.2 else None),
             "steps": steps}
 
 
@@ -167,6 +168,29 @@ def _build(cls, rows, ntr, sc, R, start):
     taxa = obj(["T%d" % (start + i) for i in range(n)]) if sc["taxa"] else None
     grp = numpy.array([R.randint(1, 3) for _ in range(n)], dtype=int) if sc["taxa_grp"] else None
     trait = obj(["R%d" % t for t in range(ntr)]) if sc["trait"] else None
+    vp = sc.get("via_pandas")
+    if vp and start == 0 and sc["trait"] and n > 0:
+        # the same raw values arriving as a data frame: trait columns in one order, requested (by name or position) in another
+        import pandas
+        rf = random.Random(vp["seed"])
+        frame_order = list(range(ntr))
+        rf.shuffle(frame_order)
+        want_order = list(range(ntr))
+        rf.shuffle(want_order)
+        cols = {}
+        if taxa is not None:
+            cols["taxa"] = taxa
+        if grp is not None:
+            cols["taxa_grp"] = grp
+        if vp.get("extra"):
+            cols["note"] = numpy.arange(n, dtype=float)
+        for t in frame_order:
+            cols["R%d" % t] = raw[:, t]
+        df = pandas.DataFrame(cols)
+        tc = ["R%d" % t for t in want_order]
+        if vp.get("positions"):
+            tc = [int(df.columns.get_loc(c)) for c in tc]
+        return cls.from_pandas(df, taxa_col="taxa" if taxa is not None else None, taxa_grp_col="taxa_grp" if grp is not None else None, trait_cols=tc), taxa, grp
     return cls.from_numpy(raw, taxa=taxa, taxa_grp=grp, trait=trait), taxa, grp
 
 
@@ -254,10 +278,23 @@ def execute(sc):
         except Exception as e:
             V.append(viol("from-numpy", C0 + ".from_numpy", "raises:%s" % type(e).__name__, "from_numpy raised %s: %s" % (type(e).__name__, e), step=-1))
             return _out(sc, V, log, kinds, faults, probes, 0)
-        for s in set(sc["styles"]):
+        styles = list(sc["styles"])
+        if sc.get("via_pandas") and sc["trait"] and rows:
+            # whichever order the traits come out in, each named trait must carry the raw values of that name
+            try:
+                perm = [int(str(nm)[1:]) for nm in cur.trait.tolist()]
+            except Exception:
+                perm = None
+            if perm is None or sorted(perm) != list(range(ntr)):
+                V.append(viol("unscale-reproduces-raw", C0 + ".from_pandas", "trait-names", "traits read from the data frame are labelled %s" % (None if cur.trait is None else cur.trait.tolist()), step=-1))
+                return _out(sc, V, log, kinds, faults, probes, 0)
+            rows = [[r[p] for p in perm] for r in rows]
+            styles = [styles[p] for p in perm]
+            faults["built_from_data_frame"] = 1
+        for s in set(styles):
             faults["column_" + s] = faults.get("column_" + s, 0) + 1
         # centred / unit scale for constant columns
-        for t, s in enumerate(sc["styles"]):
+        for t, s in enumerate(styles):
             col = numpy.array([r[t] for r in rows], dtype=float)
             if len(col) and not numpy.isnan(col).any() and numpy.all(col == col[0]):
                 if float(numpy.asarray(cur.scale)[t]) != 1.0:
